@@ -79,7 +79,8 @@ def generator(
     entity_local_index = numba.carray(_entity_local_index, ({sizes.local_index}))
     quadrature_permutation = numba.carray(_quadrature_permutation, ({sizes.permutation}))
     """
-    d["tabulate_tensor"] = header + body
+    # The header ends inside an indented line: drop that indentation, the body brings its own
+    d["tabulate_tensor"] = header.rstrip(" ") + body
     d["needs_facet_permutations"] = "True" if ir.expression.needs_facet_permutations else "False"
     d["coordinate_element_hash"] = ir.expression.coordinate_element_hash
     d["domain"] = str(int(domain))
